@@ -81,3 +81,15 @@ Theorem c08_served_then_admissible : forall validator allowed s c,
   login_admits validator allowed s = true.
 Proof. exact served_then_admissible. Qed.
 Print Assumptions c08_served_then_admissible.
+
+(* ---- where the auth-only constraints come from ---- *)
+From V.Lib Require Import Bytes.
+From V.Gen Require Wiring.
+
+(* extractAllowedEntities REGENERATED on this run reads the constraint values from the URL's query and from nothing else
+   (not the parsed form, which would merge a request body the caller controls): the `values` of c08_auth_only are the
+   operator's *)
+Theorem c08_constraints_from_query_only :
+  Wiring.allowed_entities_source = [s "query := req.URL.Query()"; s "range query[key]"].
+Proof. vm_compute. reflexivity. Qed.
+Print Assumptions c08_constraints_from_query_only.
